@@ -257,3 +257,7 @@ package tracker
 //@ -- every operation re-establishes well-formedness of exactly the objects it writes)
 //@ pred opaque wf_trk(p *ProgressTracker) := p != nil && p.Progress != nil && p.Votes != nil
 //@     && (forall id uint64 :: has(p.Progress, id) ==> wf_progress(p.Progress[id]))
+
+//@ -- progress records (and their inflight windows) are not shared between ids
+//@ pred opaque trk_distinct(p *ProgressTracker) := forall a uint64, b uint64 :: {has(p.Progress, a), has(p.Progress, b)}
+//@     has(p.Progress, a) && has(p.Progress, b) && a != b ==> p.Progress[a] != p.Progress[b]
